@@ -191,15 +191,23 @@ RATE_SIMPLE = """RATES
 10 moles = PARM(1) * M * TIME
 20 SAVE moles
 -end
+ greedy_rate
+-start
+10 REM asks for rate * time whatever is left: the integrator has to stop at the amount present
+20 moles = PARM(1) * TIME
+30 SAVE moles
+-end
 """
 
 
 def kinetics(rng, num, cvode=None):
-    name = rng.choice(["zero_rate", "first_rate"])
+    name = rng.choice(["zero_rate", "first_rate", "greedy_rate"])
     lines = ["KINETICS %s" % num, " " + name, " -formula %s 1" % rng.choice(["NaCl", "KCl", "CaSO4", "NaBr"]),
              " -m0 %s" % fmt(loguni(rng, 1e-3, 1e-2))]
     if name == "zero_rate":
         lines.append(" -parms %s" % fmt(loguni(rng, 1e-9, 1e-7)))
+    elif name == "greedy_rate":
+        lines.append(" -parms %s" % fmt(loguni(rng, 1e-8, 1e-5)))      # with 1e3..1e5 s this often exceeds the 1e-3..1e-2 mol present
     else:
         lines.append(" -parms %s" % fmt(loguni(rng, 1e-6, 1e-4)))
     lines.append(" -tol 1e-9")
@@ -216,7 +224,7 @@ def kinetics(rng, num, cvode=None):
 
 PUNCH_OPTS = ["-totals Na Cl Ca C(4) S(6)", "-molalities Na+ Cl- HCO3- CaSO4 OH-", "-activities H+ Ca+2 Cl-",
               "-saturation_indices Calcite Gypsum CO2(g) Halite", "-equilibrium_phases Calcite Gypsum Dolomite",
-              "-gases CO2(g) N2(g)", "-kinetic_reactants zero_rate first_rate", "-solid_solutions Calcite Strontianite",
+              "-gases CO2(g) N2(g)", "-kinetic_reactants zero_rate first_rate greedy_rate", "-solid_solutions Calcite Strontianite",
               "-ionic_strength true", "-water true", "-charge_balance true", "-percent_error true", "-alkalinity true",
               "-temperature true", "-ph true", "-pe true", "-step true", "-time true", "-distance true", "-state true",
               "-solution true", "-reaction true"]
@@ -516,7 +524,7 @@ FOLLOW_SELOUT = """SELECTED_OUTPUT 1
  -totals Na K Ca Mg Cl S(6) C(4) Si Sr Ba Fe Mn Al F Li Br B N(5) P Zn
  -equilibrium_phases Calcite Dolomite Gypsum Quartz Chalcedony Barite Celestite Fluorite Gibbsite Goethite CO2(g) Kaolinite
  -gases CO2(g) N2(g) O2(g) CH4(g)
- -kinetic_reactants zero_rate first_rate
+ -kinetic_reactants zero_rate first_rate greedy_rate
  -solid_solutions Calcite Strontianite
  -molalities NaX KX CaX2 MgX2 Hfo_wOH Hfo_wOH2+ Hfo_wO- Hfo_sOH Hfo_wOCa+ Goe_uniOH2+0.5 Goe_uniOHNa+0.5 Goe_uniOH2Cl-0.5
 """
